@@ -73,7 +73,7 @@ theorem Inv.other_manifest_step {cfg : Cfg} {s : St} {d : Disk} (h : Inv cfg s d
   have hpf := phase_frame (d' := { d with manifests := ms }) h j' nf' hnf rfl rfl hcm hpc' ⟨j, hj, hnr⟩ (fun _ => hnc)
     (fun j0 h0 => by
       rw [hj] at h0; cases h0
-      exact ⟨hk, fun _ hb => by rw [hbcj] at hb; cases hb⟩)
+      exact ⟨hk, fun _ hb => by rw [JPc.uninstalled_of_bc hbcj] at hb; cases hb⟩)
     (fun _ => hlimbo)
   constructor
   · exact h.disk.frame (d' := { d with manifests := ms }) hcm rfl (fun _ _ _ _ _ _ _ _ => rfl) h.disk.tnodup hnd
